@@ -151,6 +151,22 @@ def worst_huff_stream(nblocks, trunc, ones=True):
     return out + bytes(data[:trunc])
 
 
+def lossless_partial_stream(w, h, ncomp, scans, prec=8):
+    """lossless (SOF3) stream whose scans cover only some of the frame's components; all differences zero"""
+    def seg(m, payload):
+        return bytes([0xFF, m]) + (len(payload) + 2).to_bytes(2, "big") + payload
+    out = b"\xff\xd8"
+    out += seg(0xC3, bytes([prec]) + h.to_bytes(2, "big") + w.to_bytes(2, "big") + bytes([ncomp]) + b"".join(bytes([i + 1, 0x11, 0]) for i in range(ncomp)))
+    out += seg(0xC4, bytes([0x00]) + bytes([1] + [0] * 15) + bytes([0]))
+    for comps in scans:
+        out += seg(0xDA, bytes([len(comps)]) + b"".join(bytes([c + 1, 0x00]) for c in comps) + bytes([1, 0, 0]))
+        nbits = w * h * len(comps)
+        s = "0" * nbits
+        s += "1" * (-len(s) % 8)
+        out += bytes(int(s[i:i + 8], 2) for i in range(0, len(s), 8))
+    return out + b"\xff\xd9"
+
+
 def stage2(ops, model_lines, res_by_v):
     base, fails = _C03.stage2(ops, model_lines, res_by_v)
     vs = list(res_by_v.keys())
@@ -169,6 +185,11 @@ def stage2(ops, model_lines, res_by_v):
             m = s if r == 0 else mutate(rng, s, other)
             if rng.random() < .25 and r: m = mutate(rng, m, other)
             out.append("dfz %d %d %s" % (rng.choice([0, 0, 1, 2, 3, 3, 3, 4]), rng.randrange(1 << 30), m.hex() if m else "-"))
+    # multi-scan lossless frames whose scans never cover every component: what is delivered for the missing ones must not be
+    # working memory that was never written
+    for (w, h, nc, scans) in ((16, 16, 3, [[0]]), (9, 5, 3, [[0], [2]]), (16, 16, 4, [[1, 2]]), (33, 3, 2, [[1]]), (16, 16, 3, [[0], [1], [2]]), (8, 8, 3, [[0, 1]])):
+        for api in (0, 3, 3, 4):
+            out.append("dfz %d %d %s" % (api, rng.randrange(1 << 30), lossless_partial_stream(w, h, nc, scans).hex()))
     # blocks that consume the most input bytes a block can, with the data ending inside them: the decoder's choice between its
     # checked and unchecked (fast) paths must leave no read beyond the end of the input
     for nb in (1, 2, 3):
